@@ -103,6 +103,19 @@ Definition write_rtcp_packet (fmt pt : Z) (body : list Z) : list Z :=
   let length := cast_u16 (Z.max 0 ((len body + 4) / 4 - 1)) in
   Z.lor (Z.shiftl RTP_VERSION WR_VERSION_SHIFT) (Z.land fmt WR_FMT_MASK) :: pt :: be16 length ++ body.
 
+(* write_rtcp_packet_padded (TWCC): an unaligned body gets RFC 3550 padding -- resize with zeros, last octet =
+   pad count, then the P bit is or-ed into the first byte just written (out[start] |= 0x20) *)
+Definition write_rtcp_packet_padded (fmt pt : Z) (body : list Z) : list Z :=
+  let pad := (WP_ALIGN - len body mod WP_ALIGN) mod WP_ALIGN in
+  if pad >? 0 then
+    let resized := body ++ repeat 0 (Z.to_nat pad) in
+    let body' := removelast resized ++ [cast_u8 pad] in          (* body[last] = pad as u8 *)
+    match write_rtcp_packet fmt pt body' with
+    | b0 :: t => Z.lor b0 WP_PAD_BIT :: t
+    | [] => []
+    end
+  else write_rtcp_packet fmt pt body.
+
 (* ------------------------------------------------------------------ builders *)
 Definition lost24 (x : Z) : list Z :=
   let clamped := Z.max (- LOST_BOUND) (Z.min x (LOST_BOUND - 1)) in
@@ -179,7 +192,7 @@ Definition marshal_one (p : rtcp) : res (list Z) :=
   | FIR s rq => Ok (write_rtcp_packet RTCP_PSFB_FIR RTCP_PSFB (build_fir s rq))
   | NACK s m l => b <- build_nack s m l ;; Ok (write_rtcp_packet RTCP_RTPFB_NACK RTCP_RTPFB b)
   | REMB s br ss => b <- build_remb s br ss ;; Ok (write_rtcp_packet RTCP_PSFB_APP RTCP_PSFB b)
-  | TWCC s m ba c rf fb pl => Ok (write_rtcp_packet RTCP_RTPFB_TWCC RTCP_RTPFB (build_twcc s m ba c rf fb pl))
+  | TWCC s m ba c rf fb pl => Ok (write_rtcp_packet_padded RTCP_RTPFB_TWCC RTCP_RTPFB (build_twcc s m ba c rf fb pl))
   end.
 
 Fixpoint marshal_rtcp (ps : list rtcp) : res (list Z) :=
